@@ -23,7 +23,9 @@ CONSTANTS Req,         \* client requests (= their own tokens)
           LruCap,      \* requestCacheLimit (1000 in the code)
           MaxFaults,   \* fault budget
           Victims,     \* requests that may be hit by a fault (C07)
-          UniqueIds    \* TRUE: newID never repeats
+          UniqueIds,   \* TRUE: newID never repeats
+          CleanCut     \* deviation (the code before fix 35f74b2): when the agent's upload breaks off while the body is being
+                       \* copied, the client's response is ended cleanly - a truncated body that looks complete
 
 None   == "none"
 NoResp == <<"none", "none">>
@@ -257,6 +259,14 @@ ClientDone(r) ==             \* ServeHTTP copied status, headers, body, trailers
   /\ pc' = [pc EXCEPT ![r] = "done"]
   /\ UNCHANGED <<idOf, pending, ps, batch, agent, cur, seen, w, wreq, wresp, plook, inflight, calls, handed, faults, hit>>
 
+UploadBreaks(r) ==           \* the agent's POST breaks off while the proxy copies the body to the client (the agent's
+                             \* --proxy-timeout covers the whole upload; agent or connection lost): the client's connection
+  /\ pc[r] = "copying" /\ r \in Victims /\ faults < MaxFaults   \* is aborted, so it can tell - unless CleanCut
+  /\ faults' = faults + 1 /\ hit' = hit \cup {r}
+  /\ delivered' = [delivered EXCEPT ![r] = <<IF CleanCut THEN "ok-truncated" ELSE "aborted", inflight[r][2]>>]
+  /\ pc' = [pc EXCEPT ![r] = "done"]
+  /\ UNCHANGED <<idOf, pending, ps, batch, agent, cur, seen, w, wreq, wresp, plook, inflight, calls, handed>>
+
 PostOrphan(i) ==             \* nobody waits on respChan any more (client cancelled / already served)
   /\ w[i] = "upload"
   /\ plook[i] # None
@@ -274,7 +284,7 @@ PostFault(i) ==              \* upload rejected, garbled or reset for this reque
 
 Next ==
   \/ \E r \in Req, i \in IdPool : Register(r, i)
-  \/ \E r \in Req : ClientCancel(r) \/ ClientDone(r)
+  \/ \E r \in Req : ClientCancel(r) \/ ClientDone(r) \/ UploadBreaks(r)
   \/ \E p \in Poller : ListStart(p) \/ ListReply(p) \/ ListFault(p) \/ ListTimeout(p)
   \/ \E p \in Poller, r \in Req : Recv(p, r)
   \/ AgentDedupStep
@@ -325,4 +335,6 @@ ExactlyOnce == \A r \in Req : [](delivered[r] = <<"ok", r>> => calls[r] = 1)
 KeepsPolling == []<>(agent = "idle" \/ agent = "listing")
 
 \* VIEW for exhaustive runs: counters that only observe are kept (they are small)
+\* a response that did not arrive completely never looks like one that did
+NoSilentTruncation == \A r \in Req : delivered[r][1] # "ok-truncated"
 =============================================================================
